@@ -191,14 +191,62 @@ from it with or without an error, Free, take the next slot), of the closer (Clos
 (Parse: append to the cache, one section per frame with any frame geometry/kind/fin flag, the handler calls
 with or without ReleasePayload, with the default pong) in any order, actions that are not enabled being
 no-ops — the heap never flags, and the buffers held by the send queue slots, by the sender goroutine
-(in flight inside conn.Write), by `bytesCached`, by `message` and by Parse's local variables are all live and
-pairwise distinct: no buffer has two owners. -/
+(in flight inside conn.Write), by `bytesCached`, by `message`, by Parse's local variables and by the handler jobs
+the executor has queued (`rxQueue`/`jobRun`: a conn served by a poller only queues the job, which then owns its
+payload) are all live and pairwise distinct: no buffer has two owners. -/
 theorem c11_ws_ownership (g : Cfg) (acts : List Act) :
     let s := run g {} acts
     s.heap.bad = none ∧ (∀ id ∈ owned s, s.heap.live id = true) ∧ (owned s).Nodup := by
   intro s
   have h := run_inv g acts {} winv_init
   exact ⟨h.ok, h.bl, h.nd⟩
+
+/-- **C11 (websocket Conn), a queued job's payload stays live until the job has run**: whatever happens between the
+hand-over (`rxQueue`) and the job (`jobRun`) — further Parse calls that allocate again, writers, the sender goroutine,
+CloseAndClean, ReleasePayload on or off — every payload a queued handler job will read is live, and it belongs to
+nobody else (it is in no queue slot, not the cache, not the message, not in flight). -/
+theorem c11_ws_queued_payload_live (g : Cfg) (acts : List Act) :
+    let s := run g {} acts
+    (∀ id ∈ s.jobs, s.heap.live id = true) ∧ s.jobs.Nodup ∧
+    (∀ id ∈ s.jobs, id ∉ s.qrest ∧ s.inflight ≠ some id ∧ id ∉ oid s.cache ∧ id ∉ oid s.message ∧ id ∉ s.held) := by
+  intro s
+  have h : WInv s := run_inv g acts {} winv_init
+  clear_value s
+  have hcnt := List.nodup_iff_count.mp h.nd
+  refine ⟨fun id hid => h.bl id (by simp only [owned, List.mem_append]; exact Or.inr hid), ?_, ?_⟩
+  · rw [List.nodup_iff_count]
+    intro a
+    have := hcnt a
+    simp only [owned, List.count_append] at this
+    omega
+  · intro id hid
+    have hj : 0 < s.jobs.count id := List.count_pos_iff.mpr hid
+    have hc := hcnt id
+    simp only [owned, List.count_append] at hc
+    refine ⟨?_, ?_, ?_, ?_, ?_⟩
+    · intro hx; have := List.count_pos_iff.mpr hx; omega
+    · intro hx
+      rw [hx] at hc
+      simp at hc
+      omega
+    · intro hx; have := List.count_pos_iff.mpr hx; omega
+    · intro hx; have := List.count_pos_iff.mpr hx; omega
+    · intro hx; have := List.count_pos_iff.mpr hx; omega
+
+/-- non-vacuity and sensitivity: a data frame is handed to a queued job with ReleasePayload on, another Parse call
+allocates again, then the job runs: payload #2 read and freed once.  If the frame were freed at the hand-over (the
+single `defer Free` at the top of handleDataFrame) the job's read is flagged as a use after free. -/
+example :
+    let g : Cfg := { rp := true }
+    let s := run g {} [.rxAppend 12, .rxFrame ⟨12, 10, false, true⟩, .rxQueue, .rxAppend 5, .jobRun false (0, true)]
+    s.heap.bad = none ∧ s.jobs = [] ∧
+      s.heap.trace.reverse = [.malloc 1 12, .malloc 2 10, .free 1, .malloc 3 5, .free 2] := by decide
+
+example :
+    let g : Cfg := { rp := true }
+    let s := run g {} [.rxAppend 12, .rxFrame ⟨12, 10, false, true⟩, .rxQueue]
+    let s := { s with heap := s.heap.free 2 }            -- the mutant: freed when handleDataFrame returns
+    (run g s [.rxAppend 5, .jobRun false (0, true)]).heap.bad = some (.useAfterFree 2) := by decide
 
 /-- CloseAndClean leaves no buffer in the queue, the cache or the message field — and the frame the sender
 goroutine is writing stays ITS buffer (live until its own Free), whatever the interleaving before. -/
